@@ -243,7 +243,7 @@ class TimingAnalysis(object):
 
         """
         cp_length = self.max_length()
-        scale_factor = 130.0 / tech_in_nm
+        scale_factor = tech_in_nm / 130.0  # Dennard: delays shrink with the feature size
         if ffoverhead is None:
             clock_period_in_ps = scale_factor * (cp_length + 189 + 194)
         else:
